@@ -16,8 +16,7 @@ from vf.model import search as ms
 
 RULE = ('one evaluation = one (lexicon, scope, query, pos, configuration) tuple; distinct = the tuple; non-trivial = the model '
         'expects a non-empty result, or the query is a variant of a stored form that must NOT match in this configuration')
-ASSUMPTIONS = ['pos filter of synsets(form, pos) applies to the synset (documented), of words/senses to the word',
-               'scopes never contain an unselected extension (C04 owns that)']
+ASSUMPTIONS = ['pos filter of synsets(form, pos) applies to the synset (documented), of words/senses to the word']
 FLOORS = {'*': {'search.compared': 20000, 'search.nonempty': 3000, 'backoff.used': 100}}
 N = {'quick': 24, 'thorough': 800}
 STEMS = ['resume', 'Résumé', 'RESUME', 'résume', 'wolf', 'wolve', 'wolves', 'ax', 'axe', 'axis', 'axes', 'bus', 's', 'es', 'men',
@@ -134,10 +133,12 @@ def run_case(case, rec):
     try:
         with env.FreshDB():
             wnio.add(wnio.write_resource({'lmf_version': '1.1', 'lexicons': [base]}, work, random.Random(1), name='b.xml'))
-            for scope, sel in (('base', ['sb:1']), ('base+ext', ['sb:1', 'sx:1'])):
+            for scope, sel in (('base', ['sb:1']), ('base+ext', ['sb:1', 'sx:1']), ('base|ext-installed', ['sb:1'])):
                 if scope == 'base+ext':
                     wnio.add(wnio.write_resource({'lmf_version': '1.1', 'lexicons': [ext]}, work, random.Random(2), name='x.xml'))
-                words = model_words(base, ext, scope)
+                # the third scope selects the base only while its extension is installed: the extension's forms,
+                # words and senses must be invisible to the search
+                words = model_words(base, ext, 'base' if scope.startswith('base|') else scope)
                 model = ms.SearchModel(words)
                 qs = queries_for(words, r, case['nq'])
                 table = {}
